@@ -9,7 +9,7 @@ from .. import gen, impl, oracle, progs, ser, stream
 
 ID = "C05"
 LEVEL = "proof"
-PROPS_MODULE = "SymmModel.Props.C05All2"
+PROPS_MODULE = "SymmModel.Props.C05All3"
 THEOREMS = [
     "SymmModel.C05.calcFuseGroupInfo_perm",
     "SymmModel.C05.fuseA_eq_fuseCore",
@@ -46,10 +46,22 @@ THEOREMS = [
     "SymmModel.C05.unfuseSign_reversal",
     "SymmModel.C05.unfuseF_fuseF",
     "SymmModel.C05.unfuse_fuse_blocks_depth2",
-    "SymmModel.C05.fuse_elem_depth2"
+    "SymmModel.C05.fuse_elem_depth2",
+    "SymmModel.C05.fuse_conj_comm",
+    "SymmModel.C05.conj_sub_table",
+    "SymmModel.C05.unfuse_conj_comm",
+    "SymmModel.C05.fuse_conj_comm_depth2",
+    "SymmModel.C05.unfuseAllF_eq_unfuseGroupsF",
+    "SymmModel.C05.unfuseAllF_fuseF",
+    "SymmModel.C05.veq_of_obsEq",
+    "SymmModel.C05.unfuseF_value",
+    "SymmModel.C05.unfuseF_respects_veq",
+    "SymmModel.C05.fuse_cache_irrelevant",
+    "SymmModel.C05.fuse_cache_irrelevant_concurrent",
+    "SymmModel.C05.fuse_key_complete"
 ]
-LEAN_FILES = ["SymmModel.Props.C05", "SymmModel.Proofs.FuseLemmas", "SymmModel.Proofs.FuseBase", "SymmModel.Proofs.FuseAssoc", "SymmModel.Proofs.FuseTable", "SymmModel.Proofs.FusePlan", "SymmModel.Proofs.FuseWf", "SymmModel.Proofs.FuseSpec", "SymmModel.Proofs.FuseAddr", "SymmModel.Proofs.FuseIns", "SymmModel.Proofs.FuseOne", "SymmModel.Proofs.FuseInsert", "SymmModel.Proofs.FuseSem", "SymmModel.Proofs.FuseUnfuse", "SymmModel.Proofs.FuseRound", "SymmModel.Proofs.FuseAll", "SymmModel.Proofs.FuseElem", "SymmModel.Proofs.FuseConcat", "SymmModel.Proofs.FuseConcat2", "SymmModel.Proofs.FuseConcat3", "SymmModel.Props.C05b", "SymmModel.Props.C05c", "SymmModel.Props.C05All", "SymmModel.Proofs.FuseMultiAll", "SymmModel.Proofs.FuseMulti1", "SymmModel.Proofs.FuseMulti2", "SymmModel.Proofs.FuseMulti3", "SymmModel.Proofs.FuseMulti4", "SymmModel.Proofs.FuseMulti5", "SymmModel.Proofs.FuseMulti6", "SymmModel.Proofs.FuseMulti7", "SymmModel.Proofs.FuseMultiU", "SymmModel.Proofs.FuseMultiR1", "SymmModel.Proofs.FuseMultiR2", "SymmModel.Proofs.FuseMultiR3", "SymmModel.Proofs.FuseMultiR4", "SymmModel.Proofs.FuseMultiR5", "SymmModel.Proofs.FuseFermi1", "SymmModel.Proofs.FuseFermi2", "SymmModel.Proofs.FuseFermi3", "SymmModel.Proofs.FuseFermi4", "SymmModel.Proofs.FuseFermi5", "SymmModel.Proofs.FuseFermi6", "SymmModel.Proofs.FuseFermi7", "SymmModel.Props.C05d", "SymmModel.Props.C05All2", "SymmModel.Proofs.Fuse4Sign", "SymmModel.Proofs.Fuse4Sign2", "SymmModel.Proofs.Fuse4Round1", "SymmModel.Proofs.Fuse4Round2", "SymmModel.Proofs.Fuse4Round3", "SymmModel.Proofs.Fuse4Round4", "SymmModel.Proofs.Fuse4Round5", "SymmModel.Proofs.Fuse4Round6"]
-PLANNED = ["fuseInsert_eq_fuseConcat for several groups (one group proved)", "conj commutes with fuse at depth <= 2", "unfuseAllF form of unfuseF_fuseF for arrays with plain indices", "fuse_cache_irrelevant (via C15)"]
+LEAN_FILES = ["SymmModel.Props.C05", "SymmModel.Proofs.FuseLemmas", "SymmModel.Proofs.FuseBase", "SymmModel.Proofs.FuseAssoc", "SymmModel.Proofs.FuseTable", "SymmModel.Proofs.FusePlan", "SymmModel.Proofs.FuseWf", "SymmModel.Proofs.FuseSpec", "SymmModel.Proofs.FuseAddr", "SymmModel.Proofs.FuseIns", "SymmModel.Proofs.FuseOne", "SymmModel.Proofs.FuseInsert", "SymmModel.Proofs.FuseSem", "SymmModel.Proofs.FuseUnfuse", "SymmModel.Proofs.FuseRound", "SymmModel.Proofs.FuseAll", "SymmModel.Proofs.FuseElem", "SymmModel.Proofs.FuseConcat", "SymmModel.Proofs.FuseConcat2", "SymmModel.Proofs.FuseConcat3", "SymmModel.Props.C05b", "SymmModel.Props.C05c", "SymmModel.Props.C05All", "SymmModel.Proofs.FuseMultiAll", "SymmModel.Proofs.FuseMulti1", "SymmModel.Proofs.FuseMulti2", "SymmModel.Proofs.FuseMulti3", "SymmModel.Proofs.FuseMulti4", "SymmModel.Proofs.FuseMulti5", "SymmModel.Proofs.FuseMulti6", "SymmModel.Proofs.FuseMulti7", "SymmModel.Proofs.FuseMultiU", "SymmModel.Proofs.FuseMultiR1", "SymmModel.Proofs.FuseMultiR2", "SymmModel.Proofs.FuseMultiR3", "SymmModel.Proofs.FuseMultiR4", "SymmModel.Proofs.FuseMultiR5", "SymmModel.Proofs.FuseFermi1", "SymmModel.Proofs.FuseFermi2", "SymmModel.Proofs.FuseFermi3", "SymmModel.Proofs.FuseFermi4", "SymmModel.Proofs.FuseFermi5", "SymmModel.Proofs.FuseFermi6", "SymmModel.Proofs.FuseFermi7", "SymmModel.Props.C05d", "SymmModel.Props.C05All2", "SymmModel.Proofs.Fuse4Sign", "SymmModel.Proofs.Fuse4Sign2", "SymmModel.Proofs.Fuse4Round1", "SymmModel.Proofs.Fuse4Round2", "SymmModel.Proofs.Fuse4Round3", "SymmModel.Proofs.Fuse4Round4", "SymmModel.Proofs.Fuse4Round5", "SymmModel.Proofs.Fuse4Round6", "SymmModel.Proofs.Fuse5Cache", "SymmModel.Proofs.Fuse5Val", "SymmModel.Proofs.Fuse5Veq", "SymmModel.Proofs.Fuse5Conj1", "SymmModel.Proofs.Fuse5Conj2", "SymmModel.Proofs.Fuse5Conj3", "SymmModel.Proofs.Fuse5All", "SymmModel.Proofs.Fuse5All2", "SymmModel.Props.C05e", "SymmModel.Props.C05All3"]
+PLANNED = ["fuseInsert_eq_fuseConcat for several groups (one group proved)", "commutation of two unfuse steps on different axes at value level"]
 RULE = ("random abelian and fermionic arrays (all symmetries, sparse, pending signs, odd charge), one or more "
         "disjoint ordered axis groups (single-axis, non-adjacent, permuted, empty, second-level fusing of already "
         "fused axes), strategies insert/concat; compared with the Lean model (value view + sub-index tables), and on "
